@@ -40,6 +40,12 @@ def meta(doc):
             if hasattr(s, 'data'):
                 out.append(('src', g.id, str(k), tuple(s.data.shape), str(s.data.dtype), bool(s.data.flags['C_CONTIGUOUS']), tuple(s.components)))
         for p in g.primitives:
+            # the array views of a primitive ARE its sources' arrays (same memory, same dtype): binding must not replace them
+            for nm in ('vertex', 'normal'):
+                arr = getattr(p, nm, None)
+                if arr is not None:
+                    owners = [str(k) for k, s in g.sourceById.items() if hasattr(s, 'data') and numpy.shares_memory(arr, s.data)] if arr.size else ['-']
+                    out.append(('view', g.id, type(p).__name__, nm, tuple(arr.shape), str(arr.dtype), sorted(owners)))
             if p.index is not None:
                 out.append(('prim', g.id, type(p).__name__, tuple(numpy.asarray(p.index).shape), str(numpy.asarray(p.index).dtype)))
             if hasattr(p, 'vcounts'):
@@ -146,7 +152,7 @@ def make_pair(kind, seed):
     """document and identical twin, with an aux loader so that image data can be asked for"""
     docs = []
     for _ in range(2):
-        d, gen = c02.base_doc(kind, seed, dict(anyaxis=True, rig=True, tangents=True))     # rotation axes need not be unit vectors; lights and cameras under a scaled top-level node
+        d, gen = c02.base_doc(kind, seed, dict(anyaxis=True, rig=True, tangents=True, f64=True))     # rotation axes need not be unit vectors; lights and cameras under a scaled top-level node
         d.getFileData = lambda fname: b'bytes of ' + fname.encode()
         docs.append(d)
     # a document without <created>/<modified> gets the time of loading: give the twins the same instant
